@@ -52,12 +52,19 @@ def build_fault_campaign(tier, sd):
         for desc in families.enum_E(n, m):
             if rnd.random() < frac:
                 thunks.append(("E(%d,%d)" % (n, m), (lambda d=desc: families.build_E(d))))
+    # two transitions in ONE micro-step (regions of a <parallel>): an error in the first one's content must not
+    # touch the second one's -- a sample of the P family, faults in the transitions' blocks only
+    pdescs = list(families.enum_P())
+    for desc in rnd.sample(pdescs, 16 if tier == "quick" else 160):
+        thunks.append(("P", (lambda d=desc: families.build_P(d))))
     nvar = 0
     for name, th in thunks:
         base = th()
         decorate(base)
         nb = len(blocks_of(base))
         for bi in range(nb):
+            if name == "P" and not blocks_of(base)[bi][0].startswith("trans:normal"):
+                continue
             for pos in (0, 1, 2):
                 for dm in ("lua", "promela"):
                     kinds = KINDS[dm]
@@ -76,7 +83,14 @@ def build_fault_campaign(tier, sd):
                         c._number()
                         c.tags = ["F:" + name, "fault:" + k, "at:%s:%d" % (kind, pos)]
                         cid = cp.add_chart(c)
-                        ws = [[]] + [[a] for a in families.alphabet(c)[:2]]
+                        if name == "P":
+                            ws = [["e"]]
+                        elif name.startswith("d_"):
+                            # every single event (not only the first two: the event that fires two regions at
+                            # once may be the third) and the chart's first directed word
+                            ws = [[]] + [[a] for a in families.alphabet(c)] + [w for w in directed.WORDS.get(name, [])[:1] if len(w) > 1]
+                        else:
+                            ws = [[]] + [[a] for a in families.alphabet(c)[:2]]
                         cp.add_cases(cid, [dm], ws)
                         nvar += 1
         # failing conditions and data initialisers
@@ -157,7 +171,7 @@ def run(pid, tier):
     places = collections.Counter(t.split(":")[1] for c in charts for t in c["tags"] if t.startswith("at:"))
     cov = {"evaluations": result["traces"], "distinct_nontrivial": result["charts"],
            "rule": "one chart per (base chart, executable block, position 0..2 in the block, fault kind, datamodel) plus failing transition conditions, "
-                   "<if> conditions and <data> initialisers; each run with the empty word and every single event, on both engines; a case is distinct by its chart; "
+                   "<if> conditions and <data> initialisers; each run with the empty word and every single event (directed charts: plus their first directed word; P sample: the event that fires both regions), on both engines; a case is distinct by its chart; "
                    "non-trivial: every chart contains exactly one failing element",
            "samples": [{"tags": c["tags"]} for c in charts[:: max(1, len(charts) // 5)][:5]],
            "fault_kinds": dict(kinds), "block_kinds": dict(places), "families": result["families"],
